@@ -446,6 +446,183 @@ def _stage(build, transfer, odb, path, fs, algo):
     return obj.oid
 
 
+# ---------------------------------------------------------------------------------------------------------------------------
+# staging with upload=True: every file is streamed to a temporary path of the destination store and the staged object is
+# named after the bytes that went through the stream.  That makes this path (unlike plain staging, which references the
+# workspace file under the hash computed earlier) independent of *when* the hash pre-pass / the hash-state database looked
+# at the file: whatever another process does to the workspace before a file is opened for upload, the store stays
+# content-addressed.  The family below drives it with a writer that gets its turn at every point the harness can force
+# from outside (by wrapping build._get_hashes / build._upload_file in the harness process) and with workspaces that were
+# rewritten since the state database last saw them - including rewrites no stat() can tell (same inode, size, timestamps).
+
+_T_NONE = "no writer during the staging"
+_T_HASHED = "writer gets its turn after the hashing pass"
+_T_UPLOAD = "writer gets its turn before each upload"
+_T_BUILT = "writer gets its turn after build(), before the transfer"
+_TURNS = [_T_NONE, _T_HASHED, _T_UPLOAD, _T_BUILT]
+
+
+def _rewrite(rng, fp, old):
+    """another process gives `fp` other content: in place (same inode) or renamed over it, of the same or another size,
+    the old timestamps put back (rsync --inplace -t, cp -p, touch -r, an archive extractor) or the mtime moved on by 1 s"""
+    same = bool(old) and rng.random() < 0.6
+    if same:
+        k = rng.randrange(len(old))
+        new = old[:k] + bytes([old[k] ^ 0x01]) + old[k + 1:]
+    else:
+        new = old + b"+%d" % rng.randrange(1000)
+    st0 = os.stat(fp)
+    if rng.random() < 0.5:
+        with open(fp, "r+b") as f:
+            f.write(new)
+            f.truncate()
+        way = "in place"
+    else:
+        with open(fp + ".incoming", "wb") as f:
+            f.write(new)
+        os.replace(fp + ".incoming", fp)
+        way = "renamed over"
+    keep = rng.random() < 0.5
+    os.utime(fp, ns=(st0.st_atime_ns, st0.st_mtime_ns + (0 if keep else 1_000_000_000)))
+    return new, [way, "same size" if same else "other size", "old timestamps" if keep else "mtime moved on"]
+
+
+def run_upload_history(ctx, rng):
+    """a history of 2-5 stagings with build(.., upload=True) + transfer into 1-2 md5 stores of either class (optionally one
+    hash-state database): new or already staged workspaces (a directory or a single file), cold or known to the state
+    (hashed by a dry run / staged without upload before), possibly rewritten since, with or without a writer that rewrites
+    some of the files while the staging runs.  After every step every store is audited with hashlib, and what the
+    workspace held when its files were uploaded must be in the store under the digests of those bytes."""
+    import dvc_data.hashfile.build as bmod
+    from dvc_data.hashfile.state import State
+    from dvc_data.hashfile.transfer import transfer
+
+    build = bmod.build
+    fs = stores.fs_local()
+    root = ctx.mkdtemp()
+    state = State(root_dir=root, tmp_dir=os.path.join(root, "tmp")) if rng.random() < 0.7 else None
+    cfg = {"hash_name": "md5"}
+    if state is not None:
+        cfg["state"] = state
+    specs = []
+    for i in range(rng.randrange(1, 3)):
+        local = rng.random() < 0.65
+        specs.append({"odb": stores.make_odb(os.path.join(root, "u%d" % i), local=local, **cfg), "algo": "md5", "local": local})
+    wss, trace, viol = [], [], []
+    try:
+        for step in range(rng.randrange(2, 6)):
+            i = rng.randrange(len(specs))
+            odb = specs[i]["odb"]
+            if not wss or rng.random() < 0.5:
+                single = rng.random() < 0.3
+                wsdir = os.path.join(root, "uws%d" % len(wss))
+                if single:
+                    files = {("single",): gen.rand_content(rng) + rng.choice([b"", b"\r\n", b"x"])}
+                else:
+                    files = gen.rand_tree(rng, max_files=5, max_depth=2)
+                gen.materialize(wsdir, files, rng)
+                ws = {"target": os.path.join(wsdir, "single") if single else wsdir, "single": single, "files": files,
+                      "bypath": {os.path.normpath(os.path.join(wsdir, *k)): k for k in files}}
+                wss.append(ws)
+                known = rng.choice(["never seen", "hashed before (dry run)", "staged before (no upload)"])
+                if known == "hashed before (dry run)":
+                    safe_call(lambda: build(odb, ws["target"], fs, "md5", dry_run=True))
+                elif known == "staged before (no upload)":
+                    safe_call(lambda: _stage(build, transfer, odb, ws["target"], fs, "md5"))
+            else:
+                ws = rng.choice(wss)
+                known = "staged with upload before"
+            files, bykey = ws["files"], {k: p for p, k in ws["bypath"].items()}
+            keys = sorted(files)
+            since = []
+            if known != "never seen" and rng.random() < 0.6:
+                for k in [k for k in keys if rng.random() < 0.5] or [rng.choice(keys)]:
+                    files[k], how = _rewrite(rng, bykey[k], files[k])
+                    since.append(how)
+            turn = rng.choice(_TURNS)
+            victims = set([k for k in keys if rng.random() < 0.5] or [rng.choice(keys)]) if turn != _T_NONE else set()
+            during = []
+
+            def writer(paths):
+                for p in paths:
+                    k = ws["bypath"].get(os.path.normpath(p))
+                    if k in victims:
+                        victims.discard(k)
+                        files[k], how = _rewrite(rng, bykey[k], files[k])
+                        during.append(how)
+
+            orig_hashes, orig_upload = bmod._get_hashes, bmod._upload_file
+
+            def hashes_then_writer(paths, *a, **kw):
+                ret = orig_hashes(paths, *a, **kw)
+                if turn == _T_HASHED:
+                    writer(list(paths))
+                return ret
+
+            def writer_then_upload(from_path, *a, **kw):
+                if turn == _T_UPLOAD:
+                    writer([from_path])
+                return orig_upload(from_path, *a, **kw)
+
+            uploaded = {}
+
+            def stage():
+                bmod._get_hashes, bmod._upload_file = hashes_then_writer, writer_then_upload
+                try:
+                    staging, _meta, obj = build(odb, ws["target"], fs, "md5", upload=True)
+                finally:
+                    bmod._get_hashes, bmod._upload_file = orig_hashes, orig_upload
+                uploaded.update(files)  # what the workspace held when its files were streamed
+                if turn == _T_BUILT:
+                    writer([bykey[k] for k in keys])
+                res = transfer(staging, odb, {obj.hash_info}, shallow=False)
+                if res.failed:
+                    raise RuntimeError("transfer failed")
+                return obj.oid
+
+            kind, top = safe_call(stage)
+            t = ["stage_with_upload", i, "file" if ws["single"] else "dir", len(files), known, sorted(since), turn, sorted(during),
+                 kind if kind == "ok" else top]
+            trace.append(t)
+            ctx.count("upload staging: %s, %s, %s" % (known, "rewritten since" if since else "untouched since", turn))
+            for how in since:
+                ctx.count("upload staging: rewritten since the state saw it: " + ", ".join(how))
+            ctx.count("upload staging outcome: " + (kind if kind == "ok" else top))
+            for k, s2 in enumerate(specs):
+                for b in audit_store(s2["odb"].path, "md5", s2["local"]):
+                    viol.append({**b, "store": k, "after_step": t})
+            if kind == "ok" and not viol:
+                present = set(stores.listing_of(odb.path))
+                want = {md5hex(b) for b in uploaded.values()}
+                if want - present:
+                    viol.append({"why": "bytes that were uploaded are not in the store under their digest", "missing": sorted(want - present),
+                                 "store": i, "after_step": t})
+                elif top not in present:
+                    viol.append({"why": "the staged object is not in the store", "oid": top, "store": i, "after_step": t})
+                elif ws["single"]:
+                    if top != md5hex(uploaded[("single",)]):
+                        viol.append({"why": "staged file object is not named by the digest of the uploaded bytes", "oid": top,
+                                     "actual": md5hex(uploaded[("single",)]), "store": i, "after_step": t})
+                else:
+                    got = {e.get("relpath"): e.get("md5") for e in json.loads(stores.read_obj(odb.path, top))}
+                    exp = {"/".join(k): md5hex(b) for k, b in uploaded.items()}
+                    if got != exp:
+                        viol.append({"why": "staged directory object does not list the uploaded files under the digests of their bytes",
+                                     "oid": top, "differs_at": sorted(k for k in set(got) | set(exp) if got.get(k) != exp.get(k)),
+                                     "store": i, "after_step": t})
+            if viol:
+                break
+    finally:
+        if state is not None:
+            state.close()
+    case = {"family": "staging with upload=True", "stores": [{"algo": "md5", "local": s["local"]} for s in specs],
+            "shared_state": state is not None, "ops": trace}
+    ctx.case(case, nontrivial=any(t[5] or t[7] for t in trace))
+    ctx.count("upload histories")
+    for v in viol[:3]:
+        ctx.oracle(False, case, v)
+
+
 def run(ctx):
     ctx.rule = (
         "sequences of 3-9 operations {stage+transfer a directory (odd names, duplicates, empty files, CRLF text; with a shared state database often after staging every other file of it on its own: partially warm cache), stage+transfer a "
@@ -457,7 +634,15 @@ def run(ctx):
         "either class in which file and '.dir' objects have rotted (same or other size, still write-protected or not), or transfer of a "
         "staged file/directory some of whose files were rewritten (in place or renamed over, same or other size) after build()} "
         "over 2-3 stores of either class and algorithm, optionally sharing one hash-state database; every store is audited with "
-        "hashlib after every step. non-trivial = at least 3 operations"
+        "hashlib after every step. non-trivial = at least 3 operations.  "
+        "Then histories of 2-5 stagings with build(.., upload=True) + transfer into 1-2 md5 stores of either class (70% with a hash-state "
+        "database): a new directory / single file (never seen, hashed by a dry run before, or staged without upload before) or an "
+        "already staged one, possibly rewritten since the state saw it (in place or renamed over, same or other size, old timestamps "
+        "put back or mtime moved on), with a writer that rewrites some of the files while the staging runs (after the hashing pass, "
+        "before each upload, or between build() and the transfer; forced by wrapping build._get_hashes / build._upload_file in the "
+        "harness process) or without one; every store is audited with hashlib after every step and the bytes the workspace held when "
+        "they were streamed must be in the store under their digests (the '.dir' object listing exactly them). non-trivial = some "
+        "file was rewritten before or during a staging"
     )
     ctx.assumptions = ["raw odb.add(path, fs, arbitrary_oid) is not one of the operations (the test-suite uses it to plant corrupt objects)",
                        "a source that does not match its names (rotten remote, workspace rewritten after build) is only transferred with verify=True; "
@@ -465,14 +650,21 @@ def run(ctx):
                        "an import through an index reads a complete source (only directory objects whose files the source store holds are "
                        "described by the index: a transfer that raises half-way because a source object is missing leaves the objects it did "
                        "copy correctly named but not yet write-protected) and never stages the root path '/' of the served filesystem",
+                       "a workspace file that was rewritten behind the back of the hash-state database (same inode, size and timestamps) or "
+                       "while a staging runs is only ever staged with upload=True afterwards: plain staging files the workspace file under "
+                       "the hash computed earlier (that is C13's subject and an inherent race, not C01's)",
                        "chmod works on the sandbox filesystem"]
     for _ in range(ctx.n(90, 1000)):
         run_sequence(ctx, ctx.rng)
+    for _ in range(ctx.n(12, 200)):
+        run_upload_history(ctx, ctx.rng)
 
 
 def search(ctx):
     for _ in range(800):
         run_sequence(ctx, ctx.rng)
+    for _ in range(150):
+        run_upload_history(ctx, ctx.rng)
 
 
 def replay(ctx, payload):
